@@ -344,10 +344,13 @@ def run_shard(ctx):
         variants = [(label, data)]
         rng = asm.rng_for(ctx.seed, f"c01c{idx}")
         ptoks = effects.tokens_of(data) if interesting else frozenset()
-        for cname, cd in gen.corruptions(data, rng, budget=ncorr):
+        big = len(data) > 30000
+        for cname, cd in gen.corruptions(data, rng, budget=1 if big else ncorr):
             variants.append((label + "~" + cname, cd))
         for vi, (vl, vd) in enumerate(variants):
             for ep in eps:
+                if big and ep in ("trace", "cli_trace", "repeat", "unparse", "stacked"):
+                    continue        # tracing copies the memo per opcode (quadratic); the others repeat what decompile / check do
                 k = h(ep.encode() + b"|" + vd)
                 if not ctx.mine(k):
                     continue
